@@ -42,14 +42,14 @@ CHECKS = {
              note='string-like token carriers only; not-invocable entries listed in the evidence; net/ and crypto/ entries: signature conformance only (analysing a program importing net/http exceeds the 62 GB of the sandbox)', ref='§6 C09'),
 
  'C12': dict(engine='P', technique='bounded-exhaustive enumeration of dispatch-form sequences + exhaustive native execution with a dynamic call-stack recorder vs pointer call graph / ResolveCallee',
-             text='All sequences of <=2 hops over 33 dispatch forms (thorough: plus all 3-hop sequences over 13 core forms); every natively executed function must be in the reachable set and every dynamic caller->callee transfer must have a call-graph path through synthetic wrappers only - in the call graph of the analyzer state and in the stand-alone ComputeCallgraph(PointerAnalysis) graph - and be contained in the dataflow callee resolution.',
+             text='All sequences of <=2 hops over 35 dispatch forms (incl. interface bound method values and interface method expressions) (thorough: plus all 3-hop sequences over 13 core forms); every natively executed function must be in the reachable set and every dynamic caller->callee transfer must have a call-graph path through synthetic wrappers only - in the call graph of the analyzer state and in the stand-alone ComputeCallgraph(PointerAnalysis) graph - and be contained in the dataflow callee resolution.',
              note='function-granular matching (not per call-site line); small-scope bound on hops', ref='§6 C12'),
  'C18': dict(engine='P', technique='same dispatch enumeration + native execution vs FindReachable under all four root selections; inclusion and monotonicity clauses',
              text='Every natively executed function must be reported by FindReachable (all roots); every function reachable in the pointer call graph must be reported; the reported set is within all program functions and shrinks monotonically when roots are excluded.',
              note='-nomain selections demand nothing natively; CLI json output not compared', ref='§6 C18'),
 
  'C19': dict(engine='P', technique='exhaustive product go-statement form x recovery form; generator facts validated by one native process run per cell (crash trace of the panicking goroutine)',
-             text='All 10 go-statement forms x 10 recovery forms: the entry function must be reported with a creation site whenever it does not itself defer a function that calls recover; each cell is also executed natively in its own process and the crash trace (or survival) validates the generator fact; an unrelated -exclude entry must not change the report.',
+             text='All 16 go-statement forms x 10 recovery forms, plus the launched function placed in a library package under 90 import paths that resemble excluded packages x 4 recovery forms (520 cells): the entry function must be reported with a creation site whenever it does not itself defer a function that calls recover; each cell is also executed natively in its own process and the crash trace (or survival) validates the generator fact; an unrelated -exclude entry must not change the report.',
              note='main package only; spurious reports not judged', ref='§6 C19'),
 
  'C20': dict(engine='S', technique='stateless DFS over schedules of the real (mechanically rewritten) code under a controlled scheduler with iterative preemption bounding',
